@@ -754,7 +754,42 @@ def _round(ex, st, args, kwargs):
     yield st, SV("real", f(lift(x, "real"), lift(nd if nd is not None else 0, "int")))
 
 
+def _dataclass_fields(ex, cref):
+    """(name, default expr | None) of the annotated fields of a dataclass defined in the repo (MRO order)."""
+    out = []
+    for c in reversed(bm.class_mro(ex, cref)):
+        mod = load_module(c.module)
+        if mod is None or c.qualname not in mod.defs:
+            continue
+        for item in mod.defs[c.qualname].body:
+            if isinstance(item, ast.AnnAssign) and isinstance(item.target, ast.Name):
+                out = [x for x in out if x[0] != item.target.id] + [(item.target.id, item.value)]
+    return out
+
+
+def _is_dataclass(cref):
+    mod = load_module(cref.module)
+    if mod is None or cref.qualname not in mod.defs:
+        return False
+    return any(ast.unparse(d).split("(")[0].split(".")[-1] == "dataclass" for d in mod.defs[cref.qualname].decorator_list)
+
+
+def _dc_fields(ex, st, args, kwargs):
+    (c,) = args
+    if isinstance(st.deref(c), Obj):
+        c = ClassRef(*st.deref(c).cls.split(":"))
+    if not isinstance(c, ClassRef) or not _is_dataclass(c):
+        raise U("dataclasses.fields of a non-repo dataclass")
+    items = []
+    for name, default in _dataclass_fields(ex, c):
+        o = Obj("dataclasses:Field", {"name": name, "init": True})
+        o.frozen = True
+        items.append(st.alloc(o))
+    yield st, tuple(items)
+
+
 FUNCS = {
+    "dataclasses.fields": _dc_fields,
     "round": _round,
     "operator.eq": _operator(ast.Eq), "operator.ne": _operator(ast.NotEq), "operator.lt": _operator(ast.Lt),
     "operator.le": _operator(ast.LtE), "operator.gt": _operator(ast.Gt), "operator.ge": _operator(ast.GtE),
@@ -981,7 +1016,9 @@ def _m_lower(ex, st, s, args, kwargs):
 
 
 def _m_encode(ex, st, s, args, kwargs):
-    raise U("str.encode")
+    from .contracts import pure_result
+
+    yield st, pure_result(ex, st, "str.encode", "u:Bytes", [s] + list(args))
 
 
 # list
@@ -1199,7 +1236,7 @@ METHODS = {
     ("str", "find"): _m_find, ("str", "rfind"): _m_rfind, ("str", "partition"): _m_partition,
     ("str", "isdigit"): _m_isdigit, ("str", "isalpha"): _m_isalpha, ("str", "lstrip"): _m_lstrip,
     ("str", "ljust"): _m_ljust, ("str", "replace"): _m_replace, ("str", "join"): _m_join,
-    ("str", "split"): _m_split, ("str", "upper"): _m_upper, ("str", "lower"): _m_lower,
+    ("str", "split"): _m_split, ("str", "encode"): _m_encode, ("str", "upper"): _m_upper, ("str", "lower"): _m_lower,
     ("list", "append"): _l_append, ("list", "pop"): _l_pop, ("list", "insert"): _l_insert,
     ("list", "clear"): _l_clear, ("list", "extend"): _l_extend, ("list", "copy"): _l_copy,
     ("dict", "get"): _d_get, ("dict", "items"): _d_items, ("dict", "keys"): _d_keys,
@@ -1289,6 +1326,33 @@ def construct(ex, st, cref: ClassRef, args, kwargs):
         yield st, st.alloc(o)
         return
     init = bm.find_method(ex, cref, "__init__")
+    if init is None and _is_dataclass(cref):
+        fields = _dataclass_fields(ex, cref)
+        names = [n for n, _ in fields]
+        vals = {}
+        if len(args) > len(names):
+            yield ex.raise_(st, "TypeError")
+            return
+        for nm, a in zip(names, args):
+            vals[nm] = a
+        for k, v in kwargs.items():
+            if k not in names or k in vals:
+                yield ex.raise_(st, "TypeError")
+                return
+            vals[k] = v
+        for nm, default in fields:
+            if nm not in vals:
+                if default is None:
+                    yield ex.raise_(st, "TypeError")
+                    return
+                if isinstance(default, ast.Call):
+                    ex.give_up(st, f"dataclass field {nm} with field(...) default")
+                    return
+                vals[nm] = list(ex.ev(default, st))[0][1]
+        o = Obj(f"{cref.module}:{cref.qualname}", {nm: vals[nm] for nm in names})
+        o.structural = True
+        yield st, st.alloc(o)
+        return
     o = st.alloc(Obj(f"{cref.module}:{cref.qualname}", {}))
     if init is None:
         if args or kwargs:
@@ -1330,6 +1394,37 @@ EXTERNAL_CTORS = {("xml.etree.ElementTree", "QName"): _ctor_qname}
 # ---------------------------------------------------------------------------
 # comprehensions
 # ---------------------------------------------------------------------------
+def _merge_element(ex, st, frame, g, elt, item):
+    """Evaluate one comprehension element on a copy of the state; if it forks into several pure,
+    non-raising paths whose values share a sort, return ONE value (nested If), else None."""
+    probe = st.fork()
+    base = len(probe.pc)
+    heap_before = {a: o for a, o in probe.heap.items()}
+    res = list(_bind_and_eval(ex, probe, frame, g, elt, item))
+    if len(res) < 2 or len(res) > 16:
+        return None
+    vals = []
+    for st1, r in res:
+        if isinstance(r, Exc) or r is _SKIP or isinstance(r, Ref):
+            return None
+        if st1.trace != probe.trace and len(st1.trace) != len(st.trace):
+            return None
+        vals.append((st1.pc[base:], r))
+    sorts = {repr(natural_sort(v)) for _, v in vals if v is not None}
+    if len(sorts) != 1 or any(natural_sort(v) is None for _, v in vals if v is not None):
+        return None
+    so = natural_sort(next(v for _, v in vals if v is not None))
+    if any(v is None for _, v in vals) and not (isinstance(so, tuple) and so[0] == "opt"):
+        so = ("opt", so)
+    try:
+        acc = lift(vals[-1][1], so)
+        for delta, v in reversed(vals[:-1]):
+            acc = z3.If(z3.And(*delta) if delta else z3.BoolVal(True), lift(v, so), acc)
+    except TypeError:
+        return None
+    return SV(so, acc)
+
+
 def comprehension_thunk(ex, st, thunk: GenThunk, kind):
     st.frames.append(thunk.frame)
     for st1, v in comprehension(ex, st, thunk.node, kind):
@@ -1360,6 +1455,19 @@ def comprehension(ex, st, node, kind):
                 else:
                     yield st, st.alloc(PDict(dict(acc)))
                 return
+            if kind != "dict":
+                merged = _merge_element(ex, st, frame, g, elt, items[i])
+                if merged is not None:
+                    yield from go(i + 1, st, acc + [merged])
+                    return
+            else:
+                kprobe = list(_bind_and_eval(ex, st.fork(), frame, g, elt, items[i]))
+                if len(kprobe) == 1 and not isinstance(kprobe[0][1], Exc) and kprobe[0][1] is not _SKIP and not is_sym(kprobe[0][1]):
+                    g2 = ast.comprehension(target=g.target, iter=g.iter, ifs=[], is_async=0)
+                    mv = _merge_element(ex, st, frame, g2, node.value, items[i])
+                    if mv is not None:
+                        yield from go(i + 1, st, acc + [(kprobe[0][1], mv)])
+                        return
             for st1, r in _bind_and_eval(ex, st, frame, g, elt, items[i]):
                 if isinstance(r, Exc):
                     yield st1, r
